@@ -674,6 +674,84 @@ func checkPeriodsValidated(r *Run, rule string) {
 		}
 	}
 	r.Floor(rule, "ValidateBasic loops over schedule periods", n, 4)
+	// the running end of a schedule is an int64 sum of its period lengths: it must be shown to fit
+	hasOverflowTest := func(f *ssa.Function) bool {
+		found := false
+		eachInstr(f, func(in ssa.Instruction) {
+			b, ok := in.(*ssa.BinOp)
+			if !ok || found {
+				return
+			}
+			switch b.Op {
+			case token.LSS, token.LEQ, token.GTR, token.GEQ:
+			default:
+				return
+			}
+			isLen := func(v ssa.Value) bool { return backSlice(v).HasField("Period", "Length") }
+			isMax := func(v ssa.Value) bool {
+				return backSlice(v).Any(func(x ssa.Value) bool {
+					c, ok := x.(*ssa.Const)
+					if !ok || c.Value == nil || c.Value.Kind().String() != "Int" {
+						return false
+					}
+					return c.Value.ExactString() == "9223372036854775807"
+				})
+			}
+			if ((isLen(b.X) && isMax(b.Y)) || (isLen(b.Y) && isMax(b.X))) && valueBranches(b, 0) {
+				found = true
+			}
+		})
+		return found
+	}
+	nEnd := 0
+	for _, fn := range P.Funcs {
+		if fn.Name() != "ValidateBasic" || fn.Synthetic != "" || isTestSupport(P, fn) || !strings.Contains(fnPkgPath(fn), "/x/vesting") {
+			continue
+		}
+		for _, field := range []string{"LockupPeriods", "VestingPeriods"} {
+			reads := false
+			eachInstr(fn, func(in ssa.Instruction) {
+				if v, ok := in.(ssa.Value); ok {
+					if _, f, ok := fieldOfAddr(v); ok && f == field {
+						reads = true
+					}
+					if _, f, ok := fieldOfValue(v); ok && f == field {
+						reads = true
+					}
+				}
+			})
+			if !reads {
+				continue
+			}
+			nEnd++
+			isTest := func(in ssa.Instruction) bool {
+				c, ok := in.(ssa.CallInstruction)
+				if !ok {
+					return false
+				}
+				callee := c.Common().StaticCallee()
+				if callee == nil || !isHaqqPath(fnPkgPath(callee)) || !errHandled(c) || !hasOverflowTest(callee) {
+					return false
+				}
+				for _, a := range c.Common().Args {
+					if backSlice(a).HasField("", field) {
+						return true
+					}
+				}
+				return false
+			}
+			var w []ssa.Instruction
+			if !hasOverflowTest(fn) {
+				w = PathQuery{Fn: fn, Block: isTest, Target: func(x ssa.Instruction) bool {
+					ret, ok := x.(*ssa.Return)
+					return ok && classifyExit(ret) != ExitFailure
+				}}.Search()
+			}
+			r.Check(w == nil, rule, fmt.Sprintf("%s#%s/end-fits-int64", fnID(fn), field), P.Pos(fnPos(fn)), "every success exit follows an error-checked test of the period lengths against MaxInt64",
+				"the message is accepted without a check that the running sum of "+field+"' lengths fits an int64: two periods of 2^62 s wrap the schedule's end time to a negative value, ReadSchedule's `readTime >= endTime` shortcut then reports everything as vested/unlocked, and every grant merged later inherits the wrapped end", P.witness(w)...)
+		}
+	}
+	r.Floor(rule, "period lists accepted by vesting messages", nEnd, 4)
 }
 
 func checkMergeBeforeUpdate(r *Run, rule string) {
